@@ -125,7 +125,7 @@ def reference_oracle(S, dA, dB, dR):
         e = ix.by_key[tuple(site.split('.'))]
         ns = e['ns']
         # where is the holder in the result?  replace the names of renamed definitions along the path
-        pm_r, owner_shared, skip = pm, False, False
+        pm_r, owner_shared, skip, owner_ns = pm, False, False, None
         for dp in by_len:                               # innermost named definition first
             if pm == dp or pm.startswith(dp + '/'):
                 t, nm, cont = defs_b[dp]
@@ -133,6 +133,7 @@ def reference_oracle(S, dA, dB, dR):
                 dns = ix.def_field[t][0]
                 if r is None and dns in RENAMING_NS:
                     owner_shared = True
+                    owner_ns = dns
                 if r is not None and r != nm:
                     pm_r = dp[:-len(nm) - 1] + r + ']' + pm_r[len(dp):]
                 if t in united_lists and nm in namesA.get(t, ()):
@@ -159,7 +160,7 @@ def reference_oracle(S, dA, dB, dR):
         if owner_shared:
             stats['shared_owner'] += 1
         if expected not in got:
-            cls = 'shared-twin-with-renamed-target' if owner_shared else 'site:' + site
+            cls = ('shared-twin-with-renamed-target:%s->%s' % (owner_ns, ns)) if owner_shared else 'site:' + site
             out.append((cls, '%s at %s: B named %r, the representative of that element is %r, the result names %s'
                         % (site, pm, target, expected, got[:4])))
     return out, stats
@@ -220,6 +221,9 @@ def check(tier, seed):
         ov = R.OVERLAPS[j % len(R.OVERLAPS)]
         ta, tb, info = R.gen_merge_pair(rng, S, ov, size=rng.choice(['small', 'small', 'medium']))
         pairs.append((ov, ta, tb))
+    twins = P.twin_pairs(rng.randrange(1 << 30), per=1 if tier == 'quick' else 3)
+    for k, ta, tb in twins:
+        pairs.append(('twin:' + k, ta, tb))
     loads = R.run_cases('LOAD', [R.load_case(t) for ov, ta, tb in pairs for t in (ta, tb)], binary=impl)
     merges = R.run_cases('MERGE', [R.merge_case(ta, tb) for ov, ta, tb in pairs], binary=impl)
     failures, stats_all, new_dangling = [], {}, 0
@@ -254,7 +258,7 @@ def check(tier, seed):
         'table_mismatches': len(mismatches),
         'model_prediction_mismatches': len(model_bad),
         'traces_validated_against_impl': len(model_lines) - len(model_bad) if model_exe else 0,
-        'pairs': len(pairs), 'pair_reference_stats': stats_all, 'pairs_with_new_dangling_reference': new_dangling,
+        'pairs': len(pairs), 'twin_referrer_pairs': len(twins), 'pair_reference_stats': stats_all, 'pairs_with_new_dangling_reference': new_dangling,
         'oracle_failures': len(failures),
         'translator': t_info,
         'samples': [pairs[0][1][:400], pairs[0][2][:400]] if pairs else [],
